@@ -65,6 +65,8 @@ let sections toks =
 let zs l = OLst.map z_of_string l
 
 let state : (st * sst * dtype) option ref = ref None
+(* the specification has no array although the model (= the code) has one: a failed create-and-fill left it behind *)
+let spec_gone = ref false
 
 let run_ops ops =
   match !state with
@@ -81,12 +83,13 @@ let run_ops ops =
           | Ok o -> show_obs o
           | Err e -> "ERR " ^ ostr e
           | UB w -> if nan then "ANY" else "UB " ^ ostr w) in
-      let ss = if nan then "ANY" else (match q with Some o -> show_obs o | None -> "ERR") in
+      let ss = if nan then "ANY" else if !spec_gone then "ERR" else (match q with Some o -> show_obs o | None -> "ERR") in
       last := (ms, ss)) ops;
     state := Some (!m, !s, dt);
     fst !last ^ " ## " ^ snd !last
 
-let cur_dt () = match !state with Some (_, _, dt) -> dt | None -> TInt8
+let last_dt = ref TInt8
+let cur_dt () = match !state with Some (_, _, dt) -> dt | None -> !last_dt
 
 (* typed container routes: the route builds the request (NDArr.route_op), from the extent the model
    resp. the specification currently has; the request then runs like any other call *)
@@ -107,6 +110,8 @@ let run_typed r q =
     let mo = route_op r m.disk.a_shape q and so = route_op r (s_shape s) q in
     (match mo, so with
      | Ok o, Ok o' when o = o' -> run_ops [o]
+     | Ok o, _ when !spec_gone -> run_ops [o]
+     | Err e, _ when !spec_gone -> "ERR " ^ ostr e ^ " ## ERR"
      | Err e, Err _ -> "ERR " ^ ostr e ^ " ## ERR"
      | UB w, _ -> "UB " ^ ostr w ^ " ## ERR"
      | _ -> failwith "model and specification build different requests")
@@ -116,9 +121,11 @@ let handle toks = match toks with
     let t = parse_dtype dt in
     let c = (match compr with "none" -> CNone | "deflate" -> CDeflate | "fileauto" -> CFileAuto | _ -> failwith "bad compression") in
     let sh = zs shape in
-    state := Some (start t c sh, spec_start t sh, t);
+    state := Some (start t c sh, spec_start t sh, t); spec_gone := false;
     "OK -"
-  | ["reopen"; m] -> run_ops [OClose; OOpen (if m = "ro" then RO else RW)]
+  | ["reopen"; m] ->
+    (* closing and reopening the file works whether or not the array exists *)
+    if !state = None then "OK - ## OK -" else run_ops [OClose; OOpen (if m = "ro" then RO else RW)]
   | "write" :: rest ->
     (match sections rest with
      | [off; cnt; vals] -> run_ops [OWrite (zs off, zs cnt, OLst.map (parse_val (cur_dt ())) vals)]
@@ -142,6 +149,66 @@ let handle toks = match toks with
   | "rawas" :: dt :: rest ->
     (match sections rest with [off; cnt] -> run_ops [ORead (true, Some (parse_dtype dt), zs off, zs cnt)] | _ -> failwith "rawas")
   | ["readvec"] -> run_ops [OReadVec]
+  | "tcreate" :: elem :: stored :: compr :: route :: rest ->
+    (match sections rest with
+     | [ext; vals] ->
+       let te = parse_dtype elem in
+       let ts = if stored = "Nothing" then te else parse_dtype stored in
+       let c = (match compr with "none" -> CNone | "deflate" -> CDeflate | "fileauto" -> CFileAuto | _ -> failwith "bad compression") in
+       let r = parse_route route (zs ext) in
+       last_dt := ts;
+       let vs = OLst.map (parse_val te) vals in
+       (* behaviour switch: NDArr.create_fill_rolls_back; NIXV_C01_MODEL=repaired|today overrides it for replays
+          against patched / unpatched copies without editing Coq *)
+       let rollback = (match OSys.getenv_opt "NIXV_C01_MODEL" with
+           | Some "repaired" -> true | Some "today" -> false | _ -> create_fill_rolls_back) in
+       let (oa, outcome) = create_fill rollback te ts c r (zs ext) vs in
+       let sp = spec_create_fill te ts r (zs ext) vs in
+       let placeholder = spec_start ts (zs ext) in
+       (match oa with
+        | Some a -> state := Some ({ disk = a; sess = Some RW }, (match sp with Some h -> h | None -> placeholder), ts);
+          spec_gone := (sp = None)
+        | None -> state := None; spec_gone := false);
+       let nan = (match outcome with UB w -> ostr w = ostr nan_cast_why | _ -> false) in
+       let ms = (match outcome with Ok _ -> "OK -" | Err e -> "ERR " ^ ostr e | UB w -> if nan then "ANY" else "UB " ^ ostr w) in
+       ms ^ " ## " ^ (if nan then "ANY" else match sp with Some _ -> "OK -" | None -> "ERR")
+     | _ -> failwith "tcreate needs 2 sections")
+  | ["has"] ->
+    (match !state with Some _ -> "OK 1 1" | None -> "OK 0 0") ^ " ## " ^
+    (match !state with Some _ when not !spec_gone -> "OK 1 1" | _ -> "OK 0 0")
+  | "polyc" :: _ :: cs -> run_ops [OPoly (Some (OLst.map dec_dbl cs))]
+  | "rawwrite" :: rest ->
+    (match sections rest with
+     | [off; cnt; vals] -> run_ops [OWrite (zs off, zs cnt, OLst.map (parse_val (cur_dt ())) vals)]
+     | _ -> failwith "rawwrite needs 3 sections")
+  | "ndidx" :: dt :: rest ->
+    (match sections rest with
+     | [sh; vals; idx] ->
+       (match nd_index (zs sh) (zs idx) with
+        | Ok pos -> "OK " ^ show_val (OLst.nth (OLst.map (parse_val (parse_dtype dt)) vals) (int_of_z pos))
+        | Err e -> "ERR " ^ ostr e
+        | UB w -> "UB " ^ ostr w)
+     | _ -> failwith "ndidx needs 3 sections")
+  | "ndset" :: dt :: rest ->
+    (match sections rest with
+     | [sh; vals; idx; [v]] ->
+       (match nd_index (zs sh) (zs idx) with
+        | Ok pos ->
+          let p = int_of_z pos and nv = parse_val (parse_dtype dt) v in
+          "OK " ^ show_list show_val (OLst.mapi (fun i x -> if i = p then nv else x) (OLst.map (parse_val (parse_dtype dt)) vals))
+        | Err e -> "ERR " ^ ostr e
+        | UB w -> "UB " ^ ostr w)
+     | _ -> failwith "ndset needs 4 sections")
+  | "applypoly" :: _ :: origin :: rest ->
+    (match sections rest with
+     | [_; cs; xs] ->
+       "OK " ^ show_list enc_dbl (OLst.map (fun x -> apply_poly (OLst.map dec_dbl cs) (dec_dbl origin) (dec_dbl x)) xs)
+     | _ -> failwith "applypoly needs 3 sections")
+  | ["str2dt"; s] ->
+    (match string_to_dtype_name (cstr (dec_str s)) with
+     | Ok n -> "OK " ^ ostr n
+     | Err e -> "ERR " ^ ostr e
+     | UB w -> "UB " ^ ostr w)
   | "tsetall" :: route :: rest ->
     (match sections rest with
      | [ext; vals] -> run_typed (parse_route route (zs ext)) (TSetAll (zs ext, OLst.map (parse_val (cur_dt ())) vals))
